@@ -22,7 +22,7 @@ for d in sorted(glob.glob(os.path.join(V, 'seeded', '*', ''))):
   sig = ''
   for r in m.get('confirmed_by_me', []):
     if './check' in r and 'first:' in r:
-      mm = re.search(r"first: \['\s*([^ ]+?):? ", r)
+      mm = re.search(r"first: \[[\"']\s*([^ ]+?):? ", r)
       if mm:
         sig = mm.group(1).rstrip(':')
   verdict = ', '.join(f'{k}: {v}' for k, v in det.items())
